@@ -4,6 +4,8 @@ import GluonModel.SurfParse
 import GluonModel.SurfTy
 import GluonModel.SurfTyParse
 import GluonModel.ModGlobal
+import GluonModel.SurfTyCheck
+import GluonModel.SurfTyElab
 open GluonModel GluonModel.Surf GluonModel.SurfTy GluonModel.ModGlobal
 
 def resClass : Res → String
@@ -14,15 +16,26 @@ def resClass : Res → String
   | .error .fuel => "fuel"
   | .error (.wrong w) => "wrong:" ++ w
 
-/-- `tc <annotated program> <type>`: the program is typed by the model (see below) and the
-    reference evaluator neither goes wrong nor returns a value of another shape -/
+/-- `tc <annotated program> <type>`: the untrusted elaborator finds binder annotations, the
+    VERIFIED checker `inferA` must accept the annotated program at the generator's type (so a
+    `HasType` derivation exists, `Props.C02.infer_sound`), then the erasure of exactly that program
+    is run by the reference evaluator: by `Props.C02.checked_programs_safe` the outcome cannot be
+    `wrong:*` and a value has the shape of the type (re-tested dynamically here). -/
 def handleTc (e t : Sexp) : String :=
-  match parseExpr (stripAnn e), parseSTy t with
+  match parseExpr (Elab.encodeAnn e), parseSTy t with
   | some e, some τ =>
-    let r := eval 100000 [] e
-    match r with
-    | .ok v => if shapeOk surfDecls v τ then "(typed ok)" else "(shape-mismatch)"
-    | _ => "(typed " ++ resClass r ++ ")"
+    match Elab.elabProgram surfDeclsA e τ with
+    | .error msg => "(untypable elab " ++ Sexp.quote msg ++ ")"
+    | .ok a =>
+      match inferA surfDeclsA [] a with
+      | none => "(untypable check)"
+      | some τ' =>
+        if !STy.beq τ' τ then "(untypable other-type)"
+        else
+          let r := eval 100000 [] a.erase
+          match r with
+          | .ok v => if shapeOk surfDecls v τ then "(typed ok)" else "(shape-mismatch)"
+          | _ => "(typed " ++ resClass r ++ ")"
   | _, _ => "bad-request"
 
 def kindVal : Val → String
@@ -38,6 +51,7 @@ def sampleVal : String → Option (Val × STy)
   | "rec" => some (.data 0 [.int 1, .str "x"], .recd [.int, .str])
   | "fn" => some (.clos ["x"] (.prim "+" (.var "x") (.int 1)) [], .fn .int .int)
   | "arr" => some (.arr [.int 1, .int 2], .arr .int)
+  | "pfn" => some (.clos ["x"] (.int 1) [], .fn .int .int)
   | _ => none
 
 /-- `glob R I K`: module of kind K, wrapped in IO iff I, loaded with run_io = R -/
@@ -45,8 +59,13 @@ def handleGlob (r i : Nat) (k : String) : String :=
   match sampleVal k with
   | none => "bad-request"
   | some (v, t) =>
-    let g : Global := if i == 1 then ⟨.io t, .action v⟩ else ⟨.plain t, .val v⟩
-    let stored := globalInner (r == 1) g
+    -- `pfn` = `\x -> 1 : forall a. a -> Int`; wrapped in IO its type is `forall a. IO (a -> Int)`
+    let g : Global :=
+      if i == 1 then (if k == "pfn" then ⟨.ioForall t, .action v⟩ else ⟨.io t, .action v⟩)
+      else ⟨.plain t, .val v⟩
+    match globalInner (r == 1) g with
+    | none => "(ice)"
+    | some stored =>
     let imp := importerType g
     let kind := match stored.value with
       | .action _ => "fn"
